@@ -438,10 +438,7 @@ theorem uniq_eq_allDistinct (xs : List Json) (h : Spec.WFList xs = true) :
 /-! ### generators -/
 
 theorem nothing_errs (b : Option Nat) (st : RState) : (nothing b st).errs = [] := by
-  unfold nothing emit
-  cases b with
-  | none => rfl
-  | some k => dsimp only; split <;> simp
+  rfl
 
 theorem emit_st (es : List Err) (b : Option Nat) (st : RState) : (emit es b st).st = st := by
   unfold emit
@@ -470,8 +467,10 @@ theorem kwConst_errs (c x : Json) (b : Option Nat) (st : RState) (hb : b ≠ som
   | false => simpa using emit_one_errs _ b st hb
 
 theorem kwConst_st (c x : Json) (b : Option Nat) (st : RState) : (kwConst c x b st).st = st := by
-  unfold kwConst nothing
-  split <;> exact emit_st _ _ _
+  unfold kwConst
+  split
+  · rfl
+  · exact emit_st _ _ _
 
 theorem kwEnum_errs (es : List Json) (x : Json) (b : Option Nat) (st : RState) (hb : b ≠ some 0) :
     (kwEnum (.arr es) x b st).errs = [] ↔ es.any (equal x) = true := by
